@@ -145,6 +145,16 @@ _timer_from_handle_(struct qb_timer_source *s,
 	check = handle_in >> 32;
 	install_pos = handle_in & UINT32_MAX;
 
+	/*
+	 * A zero check word marks unused entries and the entry whose
+	 * callback is running right now (see timer_dispatch); handles
+	 * given out by qb_loop_timer_add() carry a non-zero one. A made-up
+	 * handle must not match those entries.
+	 */
+	if (check == 0) {
+		return -EINVAL;
+	}
+
 	rc = qb_array_index(s->timers, install_pos, (void **)&timer);
 	if (rc != 0) {
 		return rc;
